@@ -282,12 +282,12 @@ def run_shard(sh):
             if rng.random() < 0.25:
                 # same-named classes in a second module, reachable from this one (and possibly re-visited there as well)
                 oes = [(a, b, rng.choice(topo.EDGE_KINDS)) for a in range(n) for b in range(n) if rng.random() < 0.4]
-                other = topo.Topology(n, oes, nested=False, flavour="dataclass", tag=f"{sh.shard}_{i}_b")
+                other = topo.Topology(n, oes, nested=False, flavour="dataclass", tag=f"{sh.shard}_{i}_b", style=rng.choice(["postponed", "quoted"]))
                 other.build()
                 foreign = [(a, b, rng.choice(topo.EDGE_KINDS)) for a in range(n) for b in range(n) if rng.random() < 0.5] or [(0, 0, "direct")]
                 sh.count("same_name_two_module_topologies")
             tp = topo.Topology(n, edges, nested=rng.random() < 0.3 and other is None, flavour=rng.choice(["dataclass", "dataclass", "namedtuple", "typeddict"]),
-                               tag=f"{sh.shard}_{i}", other=other, foreign_edges=foreign)
+                               tag=f"{sh.shard}_{i}", other=other, foreign_edges=foreign, style=rng.choice(["postponed", "quoted"]))
             tp.build()
             try:
                 for label, T in tp.roots():
